@@ -14,7 +14,7 @@ def parseLine (d : DState) (line : String) : Except String DState :=
     match tag with
     | "H" =>
       .ok { d with hist := String.intercalate " " rest, step := 0, st := none,
-                   shadow := ⟨[], []⟩, feeTracked := true, tainted := false, lastMig := none, pend := {}, roles := none, carried := [] }
+                   shadow := ⟨[], []⟩, feeTracked := true, tainted := false, startSane := false, lastMig := none, pend := {}, roles := none, carried := [] }
     | "E" =>
       match run (do
           let contract ← str
@@ -184,7 +184,7 @@ def seed (d : DState) : DState :=
   let sh : Spec.Shadow :=
     ⟨s.asks.map (fun kv => (kv.1, kv.2.size, Spec.shadowCls kv.2.cls)),
      s.bids.filterMap (fun kv => match kv.2 with | .v3 b => some (kv.1, b.remBase) | .v2 _ => none)⟩
-  { d with st := some s, shadow := sh, feeTracked := Spec.feeExact s, tainted := false, pend := {},
+  { d with st := some s, shadow := sh, feeTracked := Spec.feeExact s, tainted := false, startSane := Spec.sane s, pend := {},
            roles := some (s.info.approvers, s.info.executors) }
 
 partial def loop (h : IO.FS.Stream) (out : IO.FS.Stream) (d : DState) : IO DState := do
